@@ -77,5 +77,7 @@ ModsShown ==
                 input |-> Alpha[a], ctx |-> <<mods, mode, layout>>,
                 observed |-> G[i].q[a][4], expected |-> SQuery(a)[4]])
 
+AllProps == LET r == << Conforms, ObsMatches, ModeMatches, ModsShown >> IN \A j \in 1..Len(r) : r[j]
+
 ASSUME Stats == Note("@@S", [impl_states |-> Len(G), alphabet |-> NA])
 =============================================================================
